@@ -15,15 +15,21 @@ REG = {
         "level_text": "Proved in Lean 4 for the model, for all inputs: + - * / % ** (integral exponents) and the comparisons are exact field/order operations on rationals (floored modulo, 0**-n and /0 %0 rejected); "
                       "a binary operator yields a value exactly for the operand combinations of the definedness table (scalars, element-wise set/scalar in both orders, set algebra) and every other combination is an "
                       "InvalidDefinition-class rejection; union/intersection/symmetric difference, sub/superset comparisons, element-wise application, min/max/count and the rejection of empty and heterogeneous "
-                      "set literals; integer literals in all four bases with digit separators denote their digits' number; and the grammar's rule layering realises the precedence table: printing ANY expression "
-                      "tree with minimal parentheses and parsing the tokens with the PEG (ordered choice, greedy repetition, right-recursive **) returns the tree. The model is tied to pydsdl by running both on "
-                      "every generated expression.",
-        "level_note": _NOTE + " Non-integral exponents (Python floats, inexact by construction), sets whose elements are sets, NFC normalisation of string equality, type expressions as atoms and the "
-                      "character-level lexing of operators are outside the model (explicit 'inexact'/'unsupported' outcomes, excluded or skipped); they are covered by the oracle/correspondence only.",
-        "partial": ["token-level round trip is proved for the minimal-parentheses printer (C04.precedence); for the fully parenthesised printer the statement C04.precedence_full_statement is "
-                    "checked by the model driver on every generated tree, not proved",
-                    "character-level lexing (`<=` before `<`, `**` vs `*`, literal regexes) is tied by the correspondence only",
-                    "real and string literal decoding is modelled character by character and tied by the correspondence; only integer literals have a theorem",
+                      "set literals; integer literals in all four bases with digit separators denote their digits' number, real literals in point and exponent notation denote exactly mantissa x 10^(+-exponent - "
+                      "fraction digits); the grammar's rule layering realises the precedence table independently of redundant parentheses: EVERY token list obtained from the minimal rendering of ANY expression tree "
+                      "by wrapping any sub-expressions in any number of further pairs of parentheses (the minimal and the fully parenthesising printer are two members of the family) is parsed back to the tree by "
+                      "the PEG (ordered choice, greedy repetition, right-recursive **), and no token list renders two different trees; and the terminals of the grammar as a character-level lexer (two-character "
+                      "operators before their one-character prefixes, real before integer, the three prefixed bases before decimal, true/false before identifier, both string forms, blanks skipped) invert the "
+                      "renderer for every well-formed token list and every choice of blanks, so that characters -> tokens -> tree returns the tree for every admissible parenthesisation and every spacing. The model "
+                      "is tied to pydsdl by running both on every generated expression; the model lexes and parses the very text handed to the library and must obtain the generated tree.",
+        "level_note": _NOTE + " Non-integral exponents (Python floats, inexact by construction), sets whose elements are sets, NFC normalisation of string equality and type expressions as atoms "
+                      "are outside the model (explicit 'inexact'/'unsupported'/'none' outcomes, excluded or skipped); they are covered by the oracle/correspondence only. pydsdl's PEG is scannerless: the "
+                      "factorisation into a lexer (Ex.lex) and a token-level PEG (Ex.parse) is part of the hand-written model and is validated on every generated text, not proved against parsimonious.",
+        "partial": ["identifiers that the grammar reads as a literal or a type (`trueish`, `uint8x`, `boolean`: syntax errors in the library, Tok.ok = false) and versioned type names as atoms are outside the "
+                    "lexer theorem (the lexer answers `none` for a primitive type name and does not detect versioned ones)",
+                    "string literal decoding (escapes) is modelled character by character and tied by the correspondence; integer and real literals have theorems",
+                    "the lexical forms of literals (`Tok.ok`: the text is one terminal of its kind) are a decidable hypothesis of the lexer theorem; that the grammar-shaped texts are such terminals is proved for integer "
+                    "literals in the four bases (C04.lexer_literals_prefixed/_decimal), for real and string literals it is checked on every generated case only",
                     "non-integral exponents, nested sets, NFC string equality: outside the model"],
         "assumptions": ["lean/Model/Expr.lean mirrors grammar.parsimonious, _parser.py and _expression/*.py (validated by the expr correspondence on every run)"],
     },
